@@ -18,6 +18,7 @@ import (
 	"strconv"
 	"strings"
 	"sync"
+	"syscall"
 	"time"
 )
 
@@ -296,9 +297,17 @@ func runWorkers(id, bin, build, tier string, seed uint64, workers, runs int, bud
 			select {
 			case <-done:
 			case <-time.After(hardLimit):
-				_ = cmd.Process.Kill()
-				<-done
-				buf.WriteString("\nWATCHDOG: worker killed after " + hardLimit.String())
+				_ = cmd.Process.Signal(syscall.SIGQUIT) // goroutine dump into the worker's output
+				select {
+				case <-done:
+				case <-time.After(10 * time.Second):
+					_ = cmd.Process.Kill()
+					<-done
+				}
+				dump := filepath.Join(verifDir, "replays", fmt.Sprintf("watchdog-%s-%s-%d.log", strings.ToLower(id), build, k))
+				_ = os.MkdirAll(filepath.Dir(dump), 0o755)
+				_ = os.WriteFile(dump, buf.Bytes(), 0o644)
+				buf.WriteString("\nWATCHDOG: worker killed after " + hardLimit.String() + "; goroutine dump in " + dump)
 			}
 			b.stderrs[k] = buf.String()
 			raw, err := os.ReadFile(cfg.Out)
